@@ -6,6 +6,7 @@ package main
 import (
 	"bytes"
 	"fmt"
+	"go/token"
 	"go/types"
 	"strconv"
 	"strings"
@@ -653,4 +654,36 @@ func init() {
 		}
 		return nil
 	}
+}
+
+// fmt.Fprintf / Fprint to an interpreted writer: the text is formatted as by Sprintf / Sprint and
+// handed to the writer's Write method (one call, as fmt does).
+func init() {
+	stubTable["fmt.Fprintf"] = func(in *interp, fr *frame, fn *ssa.Function, args []value) value {
+		var argv []value
+		if args[2] != nil {
+			argv = args[2].([]value)
+		}
+		return in.writeTo(fr, args[0], in.sprintf(args[1], argv))
+	}
+	stubTable["fmt.Fprint"] = func(in *interp, fr *frame, fn *ssa.Function, args []value) value {
+		return in.writeTo(fr, args[0], stubSprint(in, fr, fn, args[1:]))
+	}
+}
+
+func (in *interp) writeTo(fr *frame, w value, s value) value {
+	recv, ok := w.(iface)
+	if !ok || recv.t == nil {
+		in.nilDeref("Write on a nil io.Writer")
+	}
+	byteSlice := types.NewSlice(types.Typ[types.Byte])
+	b := in.conv(byteSlice, types.Typ[types.String], s)
+	if nt, ok := recv.t.(*nativeType); ok {
+		return in.callNativeMethodByName(&nativeMethod{name: "Write", t: nt}, []value{recv.v, b})
+	}
+	sel := in.prog.MethodSets.MethodSet(recv.t).Lookup(nil, "Write")
+	if sel == nil {
+		panic(unsupported("fmt.Fprint to a writer without an exported Write method"))
+	}
+	return in.call(fr, token.NoPos, in.prog.MethodValue(sel), []value{recv.v, b})
 }
